@@ -532,6 +532,13 @@ func runStoreHistory(r *rand.Rand, o storeHistOpts, t *Trace) *Case {
 				s = s.WithK(k + 5)
 			}
 			s = s.WithK(k)
+			cutoff := -1
+			if r.Intn(5) == 0 {
+				// autocut is applied by every source to its own hits; the merged list is cut at k only
+				cutoff = r.Intn(3)
+				s = s.WithCutoff(cutoff)
+				t.Stat("store.search_with_cutoff")
+			}
 			if decoy() {
 				s = s.WithFusionKind(fkinds[(fk+1)%4])
 			}
@@ -616,7 +623,7 @@ func runStoreHistory(r *rand.Rand, o storeHistOpts, t *Trace) *Case {
 						encFilter(c, f)
 					}
 				}
-				c.N(k).F32(0).N(0).N(-1).N(nprobes).N(fk).F64(1).F64(1).F64(60)
+				c.N(k).F32(0).N(0).N(cutoff).N(nprobes).N(fk).F64(1).F64(1).F64(60)
 				encLn(c, lnT)
 				c.N(code).N(len(res))
 				for _, x := range res {
@@ -665,6 +672,9 @@ func genC08(r *rand.Rand, t *Trace, thorough bool) {
 		n = 1500
 	}
 	for it := 0; it < n; it++ {
+		if it%12 == 11 {
+			runStoreHNSWDiff(r, 1, t)
+		}
 		o := storeHistOpts{nops: 10 + r.Intn(40), sessions: 1, ivf: it%5 == 4}
 		if o.ivf {
 			t.Emit(runStoreHistory(r, o, t), "store.template.ivf")
@@ -681,6 +691,9 @@ func genC09(r *rand.Rand, t *Trace, thorough bool) {
 	}
 	for it := 0; it < n; it++ {
 		// the property's template kinds: flat and trained IVF (HNSW: see DESIGN, not modelled inside the store)
+		if it%8 == 7 {
+			runStoreHNSWDiff(r, 1+r.Intn(4), t) // the hnsw template kind, differentially against the flat one
+		}
 		o := storeHistOpts{nops: 15 + r.Intn(45), sessions: 1 + r.Intn(4), ivf: it%3 == 2}
 		if o.ivf {
 			t.Emit(runStoreHistory(r, o, t), "store.template.ivf")
@@ -688,4 +701,117 @@ func genC09(r *rand.Rand, t *Trace, thorough bool) {
 			t.Emit(runStoreHistory(r, o, t), "store.template.flat")
 		}
 	}
+}
+
+// runStoreHNSWDiff: two stores, one over an HNSW template in its exact regime (M 64, ef 500, at most
+// 100 documents), one over a flat template, driven through the same history incl. close / reopen with
+// fresh templates; every search must answer identically.
+func runStoreHNSWDiff(r *rand.Rand, sessions int, t *Trace) {
+	storeCaseCounter++
+	work := os.Getenv("VERIF_WORK")
+	if work == "" {
+		work = os.TempDir()
+	}
+	base := filepath.Join(work, "stores", fmt.Sprintf("hd%d_%d", os.Getpid(), storeCaseCounter))
+	dirs := [2]string{base + "_h", base + "_f"}
+	dim := 2 + r.Intn(3)
+	mz := r.Intn(3)
+	limit := []int64{1, 200, 400, 1 << 30}[r.Intn(4)]
+	open := func(i int) *comet.PersistentHybridIndex {
+		cfg := comet.DefaultStorageConfig(dirs[i])
+		cfg.MemtableSizeLimit = limit
+		cfg.FlushThreshold = 1 << 60
+		cfg.CompactionInterval = time.Hour
+		cfg.CompactionThreshold = 1000
+		if i == 0 {
+			cfg.VectorIndexTemplate, _ = comet.NewHNSWIndex(dim, metrics[mz], 64, 500, 500)
+		} else {
+			cfg.VectorIndexTemplate, _ = comet.NewFlatIndex(dim, metrics[mz])
+		}
+		cfg.TextIndexTemplate = comet.NewBM25SearchIndex()
+		st, err := comet.OpenPersistentHybridIndex(cfg)
+		if err != nil {
+			panic(err)
+		}
+		return st
+	}
+	for _, d := range dirs {
+		os.RemoveAll(d)
+	}
+	defer func() {
+		for _, d := range dirs {
+			os.RemoveAll(d)
+		}
+	}()
+	ser := newSegSerializer()
+	comet.VerifSetHandler(ser.handler)
+	defer comet.VerifSetHandler(nil)
+	st := [2]*comet.PersistentHybridIndex{open(0), open(1)}
+	style := r.Intn(2)
+	n, diffs, opdiffs := 0, 0, 0
+	next := uint32(1)
+	session := 1
+	both := func(f func(s *comet.PersistentHybridIndex) error) {
+		e0, e1 := f(st[0]), f(st[1])
+		if (e0 == nil) != (e1 == nil) {
+			opdiffs++
+		}
+	}
+	search := func(i int, q []float32, txt string, ef int) string {
+		s := st[i].NewSearch().WithK(1 << 20).WithVector(cloneVec(q))
+		if txt != "" {
+			s = s.WithText(txt)
+		}
+		if ef != 0 {
+			s = s.WithEfSearch(ef)
+		}
+		ids, _ := st[i].VerifSegmentIDs()
+		ser.arm(ids)
+		res, err := s.Execute()
+		ser.disarm()
+		return fingerprintHyb(res, err)
+	}
+	for step := 0; step < 30+r.Intn(30); step++ {
+		switch x := r.Intn(20); {
+		case x < 8 && next <= 100:
+			v := histVec(r, dim, style)
+			if mz == 2 {
+				v[0] += 3
+			}
+			txt := bmText(r)
+			id := next
+			next++
+			both(func(s *comet.PersistentHybridIndex) error { return s.AddWithID(id, cloneVec(v), txt, nil) })
+		case x < 10:
+			both(func(s *comet.PersistentHybridIndex) error { s.VerifRotate(); return nil })
+		case x < 12:
+			both(func(s *comet.PersistentHybridIndex) error { return s.Flush() })
+		case x < 13 && session < sessions:
+			both(func(s *comet.PersistentHybridIndex) error { return s.Close() })
+			st = [2]*comet.PersistentHybridIndex{open(0), open(1)}
+			session++
+		default:
+			q := histVec(r, dim, style)
+			if mz == 2 {
+				q[0] += 3
+			}
+			txt := ""
+			if r.Intn(2) == 0 {
+				txt = bmText(r)
+			}
+			if r.Intn(3) == 0 {
+				search(0, q, txt, 1+r.Intn(2)) // a tiny ef for this search only (uncompared)
+				search(1, q, txt, 1+r.Intn(2))
+			}
+			ef := []int{0, 0, 500}[r.Intn(3)]
+			n++
+			if search(0, q, txt, ef) != search(1, q, txt, ef) {
+				diffs++
+			}
+		}
+	}
+	for i := range st {
+		st[i].Close()
+	}
+	t.Emit(NewCase(801).N(n).N(diffs).N(opdiffs), "store.template.hnsw_vs_flat")
 }
